@@ -60,6 +60,8 @@ func main() {
 			usage()
 		}
 		os.Exit(cmdDump(pos))
+	case "calls":
+		os.Exit(cmdCalls(pos))
 	case "check":
 		if len(pos) != 1 {
 			usage()
@@ -181,7 +183,7 @@ func contractMentions(ct *Contract, prop string) bool {
 	if hasProp(ct.Props, prop) || hasProp(ct.SafetyProps, prop) {
 		return true
 	}
-	for _, cs := range [][]*Clause{ct.Requires, ct.Ensures, ct.ExitReq} {
+	for _, cs := range [][]*Clause{ct.Requires, ct.Ensures, ct.ExitReq, ct.AtCalls} {
 		for _, c := range cs {
 			if hasProp(c.Props, prop) {
 				return true
@@ -285,4 +287,44 @@ func timeoutFor(tier string) int {
 		return 60
 	}
 	return 10
+}
+
+// cmdCalls lists the callees of a function (helper for writing externals.vc).
+func cmdCalls(names []string) int {
+	s, err := loadSession()
+	if err != nil {
+		fmt.Fprintln(os.Stderr, "load:", err)
+		return 2
+	}
+	defer s.solver.Close()
+	for _, n := range names {
+		fn := s.fns[n]
+		if fn == nil {
+			fmt.Println("no function", n)
+			continue
+		}
+		seen := map[string]bool{}
+		for _, b := range fn.Blocks {
+			for _, in := range b.Instrs {
+				if c, ok := in.(ssa.CallInstruction); ok {
+					cn := calleeName(c.Common())
+					if !seen[cn] {
+						seen[cn] = true
+						have := ""
+						if s.g.spec.Contracts[cn] != nil {
+							have = "  [contract]"
+						}
+						fmt.Printf("%s -> %s %s%s\n", n, cn, c.Common().Signature(), have)
+					}
+				}
+			}
+		}
+	}
+	return 0
+}
+
+func init() {
+	if os.Getenv("GOVC_NOSLICE") != "" {
+		noSlice = true
+	}
 }
